@@ -14,6 +14,8 @@ pub enum Node {
     Link(B),
     Fifo,
     Sock,
+    Chr,
+    Blk,
     Other,
 }
 
@@ -25,6 +27,8 @@ impl Node {
             Node::Link(_) => "link",
             Node::Fifo => "fifo",
             Node::Sock => "sock",
+            Node::Chr => "chr",
+            Node::Blk => "blk",
             Node::Other => "unknown",
         }
     }
@@ -72,6 +76,10 @@ fn walk(prefix: &[u8], s: &mut Snap) -> std::io::Result<()> {
             Node::Fifo
         } else if ft.is_socket() {
             Node::Sock
+        } else if ft.is_char_device() {
+            Node::Chr
+        } else if ft.is_block_device() {
+            Node::Blk
         } else {
             Node::Other
         };
